@@ -59,7 +59,7 @@ RULE = (
 )
 ASSUMPTIONS = [
     "vlib/refws.py is a correct reading of RFC 6455 5 / RFC 7692 7 (checked against the RFC example frames)",
-    "VLoop/MemPipe deliver bytes, pause/resume and executor completions like a selector loop (selftest/test_engine.py); "
+    "VLoop/MemPipe deliver bytes, pause/resume and executor completions like a selector loop (selftest/smoke_engine.py); "
     "every schedule used is realisable by a real loop",
     "zlib is correct; text payloads handed to the writer are valid UTF-8 (send_str encodes str)",
 ]
